@@ -20,6 +20,7 @@ CLAIM = {
 FORBIDDEN_INPUTS = r"^(std::time::|std::env::|std::process::|std::thread::|std::fs::|std::net::|rand|getrandom|libc::|rustix::|std::io::stdin|std::sync::atomic|std::cell::)"
 ALLOWED_STATICS = {"decoder::UTF8DFA", "decoder::TTY_EVENT_AUTOMATA", "decoder::TTY_COMMAND_AUTOMATA"}
 
+STEP_FNS = r"^decoder::MatcherDecoder::<T>::decode_byte$"
 DECODERS = [
     # (body path, step callee regex or None for inline step, has pending queue)
     ("<decoder::MatcherDecoder<T> as decoder::Decoder>::decode", r"^decoder::MatcherDecoder::<T>::decode_byte$", True),
@@ -40,6 +41,248 @@ def some_edge(body, bb, t):
     return None
 
 
+# ------------------------------------------------------------------------------------------------
+# helpers: bodies with extracted helpers expanded, canonical-term parsing, in-order iteration idioms
+# ------------------------------------------------------------------------------------------------
+def inlined_keep(prog, path, keep_rx):
+    """`prog.inlined(path)` (sa/inline.py: small private single-caller helpers expanded in place) except that callees whose path matches
+    keep_rx stay calls: the rules below talk about those functions by name (the step function, take_candidate)."""
+    from .. import inline
+    from ..mir import Body
+    import copy
+    cache = prog.__dict__.setdefault("_c03_inl_cache", {})
+    key = (path, keep_rx)
+    if key in cache:
+        return cache[key]
+    base = prog.body(path)
+    if base is None:
+        return None
+    root = base.closure_root or base.path
+    j = None
+    work = list(range(len(base.blocks)))
+    level = {i: 0 for i in work}
+    blocks, locals_, vars_ = base.blocks, base.locals, base.j["vars"]
+    expanded = set()
+    while work:
+        bb = work.pop(0)
+        blk = blocks[bb]
+        t = blk["term"]
+        if t["k"] != "call" or level.get(bb, 0) >= inline.MAX_DEPTH or blk["cleanup"]:
+            continue
+        f = t["fn"]
+        cpath = f.get("resolved") if f.get("resolved_local") else (f.get("path") if f.get("local") else None)
+        callee = prog.body(cpath) if cpath else None
+        if callee is None or (keep_rx and re.search(keep_rx, callee.path)) or len(t["args"]) != callee.arg_count or not _inlinable(prog, callee, root, expanded):
+            continue
+        expanded.add(callee.path)
+        if j is None:
+            j = copy.deepcopy(base.j)
+            blocks, locals_, vars_ = j["blocks"], j["locals"], j["vars"]
+            blk = blocks[bb]
+            t = blk["term"]
+        lo, bo = len(locals_), len(blocks)
+        locals_.extend(copy.deepcopy(callee.locals))
+        for v in callee.j["vars"]:
+            vars_.append({"name": v["name"], "place": inline._shift(v["place"], lo, 0)})
+        for k, a in enumerate(t["args"]):
+            blk["stmts"].append({"k": "assign", "place": {"l": lo + 1 + k, "p": []}, "rv": {"k": "use", "a": a}, "line": t.get("line", 0), "exp": False, "expk": "", "inl_arg": callee.path})
+        dest, target, line = t["dest"], t["t"], t.get("line", 0)
+        blk["term"] = {"k": "goto", "t": bo, "inl_call": callee.path, "line": line}
+        for i, cb in enumerate(callee.blocks):
+            nb = inline._shift(cb, lo, bo)
+            nb["inl_from"] = cb.get("inl_from") or callee.path
+            if nb["term"]["k"] == "return":
+                nb["stmts"].append({"k": "assign", "place": dest, "rv": {"k": "use", "a": {"k": "move", "place": {"l": lo, "p": []}}}, "line": line, "exp": False, "expk": "", "inl_ret": callee.path})
+                nb["term"] = {"k": "goto", "t": target} if target >= 0 else {"k": "unreachable"}
+            blocks.append(nb)
+            level[bo + i] = level.get(bb, 0) + 1
+            work.append(bo + i)
+    res = base if j is None else Body(j, prog)
+    cache[key] = res
+    return res
+
+
+def _inlinable(prog, callee, into_root, expanded):
+    """sa.inline.inlinable, but a helper of a helper counts as single-caller too: its call sites may lie in functions already expanded into
+    the root (inline.inlinable compares the callers with the root only, so `a -> helper1 -> helper2` stops at helper1)"""
+    from .. import inline
+    if callee.kind not in ("Fn", "AssocFn") or callee.impl_trait or len(callee.blocks) > inline.MAX_BLOCKS or not callee.file.startswith("src/") or callee.path == into_root:
+        return False
+    for bb, t in callee.calls():
+        f = t["fn"]
+        if (f.get("resolved") or f.get("path")) == callee.path:
+            return False
+    roots = set()
+    for c in inline.callers_of(prog, callee.path):
+        cb = prog.body(c)
+        roots.add((cb.closure_root or cb.path) if cb is not None else c)
+    return bool(roots) and roots <= ({into_root} | expanded)
+
+
+def split_term(term):
+    """canonical term `Head(a, b)suffix` (sa.flow.expr text) -> (head, [a, b], suffix); None when it is not an application"""
+    i = term.find("(")
+    if i <= 0 or not re.fullmatch(r"[\w:<>\[\]& ]+", term[:i]):
+        return None
+    depth, args, cur, quote = 0, [], "", False
+    for j in range(i, len(term)):
+        ch = term[j]
+        if ch == '"':
+            quote = not quote
+        if quote:
+            cur += ch
+            continue
+        if ch in "([{":
+            depth += 1
+            if depth == 1:
+                continue
+        elif ch in ")]}":
+            depth -= 1
+            if depth == 0:
+                if cur.strip():
+                    args.append(cur.strip())
+                return term[:i], args, term[j + 1:]
+        elif ch == "," and depth == 1:
+            args.append(cur.strip())
+            cur = ""
+            continue
+        cur += ch
+    return None
+
+
+# unary adaptors that yield every element of their receiver, front to back
+IN_ORDER_ADAPTORS = {"into_iter", "iter", "copied", "cloned", "by_ref", "fuse", "peekable"}     # last path segment of the callee
+# consumers that call their closure once per element pulled from the front, in order, until they stop (closure parameter index of the element)
+INTERNAL_ITERATION = {"find_map": 2, "for_each": 2, "try_for_each": 2, "any": 2, "all": 2, "find": 2, "position": 2, "fold": 3, "try_fold": 3}
+FILL_BUF_SLICE = r"^BufRead::fill_buf\(arg2\)@(Continue|Ok)\.0$"
+
+
+def strip_in_order(term):
+    """(base term, enumerated?) after removing adaptors that keep all elements in order; `enumerate` is remembered (element is then `.1`)"""
+    enum = False
+    while True:
+        sp = split_term(term)
+        if sp is None or sp[2]:
+            return term, enum
+        head, args, _ = sp
+        if head.split("::")[-1] in IN_ORDER_ADAPTORS and len(args) == 1:
+            term = args[0]
+        elif head.split("::")[-1] == "enumerate" and len(args) == 1 and not enum:
+            enum = True
+            term = args[0]
+        elif head == "Index::index" and len(args) == 2 and args[1] in ("RangeFull", "RangeFull()"):
+            term = args[0]
+        else:
+            return term, enum
+
+
+def over_fill_buf(term):
+    """is the iterator term an in-order traversal of the whole slice returned by input.fill_buf()?  -> (bool, enumerated)"""
+    base, enum = strip_in_order(term)
+    return re.match(FILL_BUF_SLICE, base) is not None, enum
+
+
+def is_increment_of(e, x):
+    return e in ("Add(%s, 1)" % x, "Add(1, %s)" % x)
+
+
+def step_sites(body, step_rx, blocks=None):
+    return [(bb, t) for bb, t in body.calls() if call_matches(t, step_rx) and (blocks is None or bb in blocks)]
+
+
+def closure_literal(body, operand):
+    """(closure def path, aggregate rvalue) when the operand is a closure created in this body"""
+    l = op_local(operand)
+    seen = set()
+    while l is not None and l not in seen:
+        seen.add(l)
+        ds = body.defs_of(l)
+        if len(ds) != 1 or ds[0][1] == "term":
+            return None, None
+        rv = ds[0][2]
+        if rv["k"] == "agg" and rv.get("ak") == "closure":
+            return rv["def"], rv
+        if rv["k"] == "use":
+            l = op_local(rv["a"])
+        else:
+            return None, None
+    return None, None
+
+
+def chase_copies(body, operand, depth=0):
+    """the user variable (bare local) whose value the operand holds, following moves/copies and tuple packing (`(n, out)` returned by an
+    expanded helper and taken apart by the caller); None when it is not one variable"""
+    if depth > 12 or operand.get("k") not in ("copy", "move"):
+        return None
+    l, proj = operand["place"]["l"], [e for e in operand["place"]["p"] if e["k"] != "deref"]
+    ds = [d for d in body.defs_of(l)]
+    if not proj:
+        if len(ds) == 1 and ds[0][1] != "term" and ds[0][2]["k"] == "use" and ds[0][2]["a"].get("k") in ("copy", "move"):
+            return chase_copies(body, ds[0][2]["a"], depth + 1)
+        return l
+    if len(proj) == 1 and proj[0]["k"] == "field" and ds and all(si != "term" for _, si, _ in ds):
+        outs = set()
+        for _, si, rv in ds:
+            if rv["k"] == "agg" and rv["ak"] == "tuple" and proj[0]["i"] < len(rv["fields"]):
+                outs.add(chase_copies(body, rv["fields"][proj[0]["i"]], depth + 1))
+            elif rv["k"] == "use" and rv["a"].get("k") in ("copy", "move"):
+                a = rv["a"]
+                outs.add(chase_copies(body, {"k": "copy", "place": {"l": a["place"]["l"], "p": a["place"]["p"] + proj}}, depth + 1))
+            else:
+                outs.add(None)
+        return outs.pop() if len(outs) == 1 else None
+    return None
+
+
+def innermost_loop(loops, bb):
+    head = None
+    for h, body_ in loops.items():
+        if bb in body_ and (head is None or len(body_) < len(loops[head])):
+            head = h
+    return head
+
+
+def unwrapped(term):
+    """payload of an Option term: `X@Some.0`, `Option::expect(X, msg)`, `Option::unwrap(X)` -> X"""
+    while True:
+        if term.endswith("@Some.0"):
+            term = term[:-len("@Some.0")]
+            continue
+        sp = split_term(term)
+        if sp and not sp[2] and sp[0] in ("Option::expect", "Option::unwrap", "Option::unwrap_unchecked") and sp[1]:
+            term = sp[1][0]
+            continue
+        return term
+
+
+def minimum_of_set(term):
+    """S when the term denotes the smallest element of the ordered set S (None otherwise): S.iter().next(), S.first(), S.iter().min(),
+    (&S).into_iter().next(), S.range(..).next()"""
+    sp = split_term(term)
+    if sp is None or sp[2]:
+        return None
+    head, args, _ = sp
+
+    def ascending(t):
+        while True:
+            q = split_term(t)
+            if q is None or q[2]:
+                return t            # a place: `(&set).into_iter()` iterates the set itself in ascending order
+            if q[0].split("::")[-1] in ("into_iter", "by_ref", "copied", "cloned", "peekable", "fuse") and len(q[1]) == 1:
+                t = q[1][0]
+            elif q[0] == "BTreeSet::iter" and len(q[1]) == 1:
+                return q[1][0]
+            elif q[0] == "BTreeSet::range" and len(q[1]) == 2 and q[1][1] in ("RangeFull", "RangeFull()"):
+                return q[1][0]
+            else:
+                return None
+    if head.split("::")[-1] in ("next", "min") and len(args) == 1:
+        return ascending(args[0])
+    if head == "BTreeSet::first" and len(args) == 1:
+        return args[0]
+    return None
+
+
 def run(ctx):
     prog, src = ctx.prog, ctx.src
     ctx.explanation = (
@@ -53,9 +296,13 @@ def run(ctx):
         "the kept candidate is the longest one, and the push-back arithmetic (value-level).")
 
     # ---------------- FOLD --------------------------------------------------------------------------------
+    # The byte traversal may be written as an explicit loop (`for b in buf.iter()` / `while let Some(b) = it.next()`) or as internal iteration
+    # (`buf.iter().find_map(|b| ..)`, try_for_each, any, ..): in both forms there is a *region* executed once per byte, in order - the loop body
+    # entered on the Some edge of next(), or the closure body - and the hypotheses are the same facts about that region.  Private helpers
+    # extracted from decode() are expanded first (MIR inlining), so it does not matter in which function the statements live.
     ctx.rule("FOLD", "fold-theorem hypotheses of the byte decoders (fill_buf once, one step per byte in order, counter, consume on every exit, pending first)", floor=10)
     for path, step_rx, pending in DECODERS:
-        b = prog.body(path)
+        b = inlined_keep(prog, path, step_rx)
         if b is None:
             ctx.anchor("FOLD", path)
             continue
@@ -68,76 +315,137 @@ def run(ctx):
             ctx.violation("FOLD", path, "fill_buf", "bytes must come from exactly one fill_buf() on the input argument (found %d)" % len(fb), sites=[b.loc])
             continue
         fbb, ft = fb[0]
-        # iteration over that buffer
-        nx = [(bb, t) for bb, t in b.calls() if call_matches(t, r"Iterator>::next$|Iterator::next$") and "BufRead::fill_buf(arg2)" in expr(b, t["args"][0])]
-        okn = len(nx) == 1 and re.match(r"^IntoIterator::into_iter\(slice::iter\(BufRead::fill_buf\(arg2\)@Continue\.0\)\)$", expr(b, nx[0][1]["args"][0])) is not None
-        ctx.instance("FOLD", {"fn": path, "hyp": "loop iterates fill_buf()'s slice front to back", "ok": okn, "iter": expr(b, nx[0][1]["args"][0])[:120] if nx else None})
+        # ---- the traversal of that buffer: region executed once per byte
+        feeds = []
+        for bb, t in b.calls():
+            if not t["args"]:
+                continue
+            nm = (callee_name(t) or "").split("::")[-1]
+            e0 = expr(b, t["args"][0])
+            if "BufRead::fill_buf(arg2)" not in e0:
+                continue
+            if nm == "next" and call_matches(t, r"Iterator>?::next$"):
+                okf, enum = over_fill_buf(e0)
+                feeds.append({"form": "loop", "bb": bb, "t": t, "iter": e0, "ok": okf, "enum": enum})
+            elif nm in INTERNAL_ITERATION and call_matches(t, r"Iterator>?::%s$" % nm):
+                okf, enum = over_fill_buf(e0)
+                cdef, cagg = closure_literal(b, t["args"][-1])
+                feeds.append({"form": "internal", "bb": bb, "t": t, "iter": e0, "ok": okf and cdef is not None, "enum": enum, "closure": cdef, "agg": cagg,
+                              "elem": INTERNAL_ITERATION[nm]})
+        okn = len(feeds) == 1 and feeds[0]["ok"]
+        ctx.instance("FOLD", {"fn": path, "hyp": "fill_buf()'s slice is traversed front to back, once", "ok": okn, "form": feeds[0]["form"] if feeds else None,
+                              "iter": feeds[0]["iter"][:120] if feeds else None})
         if not okn:
-            ctx.violation("FOLD", path, "iteration", "the byte loop does not iterate the slice returned by fill_buf() in order (.iter())", sites=[b.loc])
+            ctx.violation("FOLD", path, "iteration", "the bytes returned by fill_buf() are not traversed exactly once, in order (explicit loop over .iter() or an in-order "
+                          "iterator consumer such as find_map/try_for_each); found %s" % [f["iter"][:100] for f in feeds], sites=[b.loc])
             continue
-        nbb, nt = nx[0]
-        se = some_edge(b, nbb, nt)
-        head = None
-        for h, body_ in loops.items():
-            if nbb in body_ and (head is None or len(body_) < len(loops[head])):
-                head = h
-        if se is None or head is None:
-            ctx.anchor("FOLD", path + "/loop")
-            continue
-        sw, some_t, none_t = se
-        # step calls
-        steps = [(bb, t) for bb, t in b.calls() if call_matches(t, step_rx) and bb in loops[head]]
-        byte_ok = bool(steps) and all(any("Iterator::next(" in expr(b, a) and "@Some.0" in expr(b, a) for a in t["args"]) for bb, t in steps)
-        one_step = len(steps) == 1 and cfg.must_pass([steps[0][0]], start=some_t, exits=[head] + cfg.returns)[0]
-        ctx.instance("FOLD", {"fn": path, "hyp": "exactly one step per byte, fed with the loop's byte", "ok": byte_ok and one_step, "steps": len(steps)})
+        feed = feeds[0]
+        if feed["form"] == "loop":
+            nbb, nt = feed["bb"], feed["t"]
+            se = some_edge(b, nbb, nt)
+            head = innermost_loop(loops, nbb)
+            if se is None or head is None:
+                ctx.anchor("FOLD", path + "/loop")
+                continue
+            sw, some_t, none_t = se
+            rb, rcfg, entry, exits, region = b, cfg, some_t, [head] + cfg.returns, loops[head]
+            elem = r"(?:\w+::)*next\(%s\)@Some\.0%s" % (re.escape(feed["iter"]), r"\.1" if feed["enum"] else "")
+            feed_bbs = None       # filled below with the step blocks
+        else:
+            rb = inlined_keep(prog, feed["closure"], step_rx)
+            if rb is None or rb.arg_count < feed["elem"]:
+                ctx.anchor("FOLD", path + "/closure")
+                continue
+            rcfg = rb.cfg()
+            entry, exits, region = 0, rcfg.returns, set(range(len(rb.blocks)))
+            elem = r"arg%d%s" % (feed["elem"], r"\.1" if feed["enum"] else "")
+            sw = some_t = None
+            feed_bbs = [feed["bb"]]
+        # ---- step calls
+        steps = step_sites(rb, step_rx, region)
+        byte_ok = bool(steps) and all(any(re.fullmatch(elem, expr(rb, a)) for a in t["args"]) for bb, t in steps)
+        one_step = len(steps) == 1 and rcfg.must_pass([steps[0][0]], start=entry, exits=exits)[0]
+        if one_step:
+            # not inside a loop nested in the region: one step per byte, not several
+            h2 = innermost_loop(rcfg.loops(), steps[0][0])
+            one_step = (h2 == head) if feed["form"] == "loop" else (h2 is None)
+        ctx.instance("FOLD", {"fn": path, "hyp": "exactly one step per byte, fed with the traversal's byte", "ok": byte_ok and one_step, "steps": len(steps)})
+        # no further step call hides in another closure of the function (e.g. `.or_else(|| self.step(b))`)
+        root = prog.body(path)
+        others = [c for c in prog.bodies if c.kind == "Closure" and c.closure_root == (root.closure_root or root.path) and (feed["form"] != "internal" or c.path != feed["closure"])]
+        stray = sum(len(step_sites(c, step_rx)) for c in others)
+        if stray:
+            one_step = False
         if not (byte_ok and one_step):
-            ctx.violation("FOLD", path, "step", "each byte of the buffer must be handed to the step function exactly once (found %d step calls in the loop, byte argument ok=%s)" % (len(steps), byte_ok), sites=[b.loc])
-        # counter
+            ctx.violation("FOLD", path, "step", "each byte of the buffer must be handed to the step function exactly once (found %d step calls in the per-byte region, byte argument ok=%s)" % (len(steps), byte_ok), sites=[b.loc])
+        if feed_bbs is None:
+            feed_bbs = [bb for bb, t in steps]
+        # ---- counter
         cons = [(bb, t) for bb, t in b.calls() if call_matches(t, r"^std::io::BufRead::consume$")]
         cl = None
         for bb, t in cons:
-            l = op_local(t["args"][1])
-            src_l = l
-            # chase copies to the user variable
-            seen = set()
-            while src_l is not None and src_l not in seen:
-                seen.add(src_l)
-                ds = b.defs_of(src_l)
-                if len(ds) == 1 and ds[0][1] != "term" and ds[0][2]["k"] == "use" and op_local(ds[0][2]["a"]) is not None:
-                    src_l = op_local(ds[0][2]["a"])
-                else:
-                    break
+            src_l = chase_copies(b, t["args"][1]) if len(t["args"]) > 1 else None
             cl = src_l if cl is None or cl == src_l else -1
         okc = bool(cons) and cl not in (None, -1)
         incs = []
         inits = []
         if okc:
+            nm = b.varnames.get(cl, "_%d" % cl)
             for i, si, s in b.assigns():
+                rv = s["rv"]
+                if rv["k"] == "ref" and rv["place"]["l"] == cl and rv.get("mut"):
+                    # a mutable borrow of the counter: only the capture by the per-byte closure is understood
+                    cap = feed["form"] == "internal" and any(op_local(f) == s["place"]["l"] for f in feed["agg"]["fields"]) and not s["place"]["p"]
+                    if not cap:
+                        okc = False
                 if s["place"]["l"] == cl and not s["place"]["p"]:
-                    rv = s["rv"]
                     if rv["k"] == "use" and op_const_int(rv["a"]) == 0:
                         inits.append(i)
                     else:
                         e = expr(b, rv["a"]) if rv["k"] == "use" else rv["k"]
-                        nm = b.varnames.get(cl, "_%d" % cl)
-                        if e in ("Add(var:%s, 1)" % nm, "Add(_%d, 1)" % cl):
+                        if feed["form"] == "loop" and (is_increment_of(e, "var:%s" % nm) or is_increment_of(e, "_%d" % cl)):
                             incs.append(i)
                         else:
                             okc = False
-            okc = okc and len(incs) == 1 and len(inits) == 1 and cfg.dominates(inits[0], head)
+            if feed["form"] == "internal":
+                # the closure captures `&mut counter`; inside, the only write through that capture is `+= 1`
+                caps = [k for k, f in enumerate(feed["agg"]["fields"]) if op_local(f) is not None and any(
+                    rv["k"] == "ref" and rv.get("mut") and rv["place"]["l"] == cl and not rv["place"]["p"] for _, si_, rv in b.defs_of(op_local(f)) if si_ != "term")]
+                okc = okc and len(caps) == 1
+                if okc:
+                    cx = "arg1.%d" % caps[0]
+                    for i, si, s in rb.assigns():
+                        if place_expr(rb, s["place"]) == cx and s["place"]["p"]:
+                            rv = s["rv"]
+                            e = expr(rb, rv["a"]) if rv["k"] == "use" else rv["k"]
+                            if is_increment_of(e, cx):
+                                incs.append(i)
+                            else:
+                                okc = False
+                    # the reference itself is not handed to anything else
+                    for bb, t in rb.calls():
+                        if any(expr(rb, a) == cx and ty.startswith("&mut") for a, ty in zip(t["args"], t.get("arg_tys") or [])):
+                            okc = False
+            okc = okc and len(incs) == 1 and len(inits) == 1 and cfg.dominates(inits[0], feed["bb"])
             if okc and steps:
-                # the increment lies on the Some edge and precedes the step on every path
-                okc = cfg.edge_dominates(sw, some_t, incs[0]) and cfg.must_pass(incs, start=some_t, exits=[steps[0][0]])[0]
-        ctx.instance("FOLD", {"fn": path, "hyp": "counter = 0 before the loop, += 1 once per byte before the step", "ok": okc})
+                # the increment happens once per byte (on the Some edge / in the closure, not in a nested loop) and precedes the step on every path
+                okc = rcfg.must_pass(incs, start=entry, exits=[steps[0][0]])[0]
+                if feed["form"] == "loop":
+                    okc = okc and cfg.edge_dominates(sw, some_t, incs[0]) and innermost_loop(loops, incs[0]) == head
+                else:
+                    okc = okc and innermost_loop(rcfg.loops(), incs[0]) is None
+        ctx.instance("FOLD", {"fn": path, "hyp": "counter = 0 before the traversal, += 1 once per byte before the step", "ok": okc})
         if not okc:
             ctx.violation("FOLD", path, "counter", "the consumed-byte counter is not incremented exactly once per byte handed to the step", sites=[b.loc])
-        # consume on every exit after a successful fill_buf
+        # ---- consume on every exit after a successful fill_buf
         fb_ok_edge = None
-        tb = b.blocks[ft["t"]]["term"]          # Try::branch
-        if tb["k"] == "call":
-            se2 = b.blocks[tb["t"]]["term"]
-            if se2["k"] == "switch" and "0" in se2["vals"]:
-                fb_ok_edge = se2["targets"][se2["vals"].index("0")]
+        nb_ = ft["t"]
+        tb = b.blocks[nb_]["term"] if nb_ >= 0 else {"k": "none"}
+        if tb["k"] == "call" and call_matches(tb, r"Try>?::branch$"):          # `?`
+            nb_ = tb["t"]
+            tb = b.blocks[nb_]["term"] if nb_ >= 0 else {"k": "none"}
+        if tb["k"] == "switch" and "0" in tb["vals"] and re.fullmatch(r"discr\(BufRead::fill_buf\(arg2\)\)", expr(b, tb["d"])):
+            fb_ok_edge = tb["targets"][tb["vals"].index("0")]        # Continue / Ok
         okx = False
         if fb_ok_edge is not None and cons:
             okx, wit = cfg.must_pass([bb for bb, t in cons], start=fb_ok_edge)
@@ -145,22 +453,28 @@ def run(ctx):
         ctx.instance("FOLD", {"fn": path, "hyp": "consume(count) on every exit after fill_buf succeeded", "ok": okx, "consume_sites": len(cons)})
         if not okx:
             ctx.violation("FOLD", path, "consume", "an exit path after fill_buf() does not call input.consume(count): bytes would be decoded twice or lost across reads", sites=[b.loc])
-        # no consume before the loop finished handing over bytes: consume must not be followed by another step
+        # no consume before the traversal finished handing over bytes: consume must not be followed by another step
         for bb, t in cons:
             after = cfg.reachable_from(bb)
-            if any(sb in after and sb != bb for sb, _ in steps):
+            if any(sb in after and sb != bb for sb in feed_bbs):
                 ctx.violation("FOLD", path, "consume-then-step", "a step call is reachable after consume(): the count no longer matches the bytes handed over", sites=["%s:%d" % (b.file, t["line"])])
         if pending:
             pops = [(bb, t) for bb, t in b.calls() if call_matches(t, r"smallvec::SmallVec::<A>::pop$") and expr(b, t["args"][0]) == "arg1.rescheduled"]
             okp = False
             if len(pops) == 1:
+                # input is read only once the queue is known to be empty: on the None edge of pop(), or on the true edge of is_empty()
                 pe = some_edge(b, pops[0][0], pops[0][1])
                 if pe:
                     psw, psome, pnone = pe
                     okp = cfg.edge_dominates(psw, pnone, fbb)
-                    # and the popped byte goes to the same step
-                    pst = [(bb, t) for bb, t in b.calls() if call_matches(t, step_rx) and "SmallVec::pop(arg1.rescheduled)@Some.0" in expr(b, t["args"][1])]
-                    okp = okp and len(pst) == 1
+                if not okp:
+                    for sb, st_ in b.terms():
+                        if st_["k"] == "switch" and st_["vals"] == ["0"] and expr(b, st_["d"]) in ("SmallVec::is_empty(arg1.rescheduled)", "Eq(SmallVec::len(arg1.rescheduled), 0)"):
+                            okp = okp or cfg.edge_dominates(sb, st_["otherwise"], fbb)
+                # and the popped byte goes to the same step
+                popped = r"(SmallVec::pop\(arg1\.rescheduled\)@Some\.0|Option::(unwrap|expect|unwrap_unchecked)\(SmallVec::pop\(arg1\.rescheduled\)(, .*)?\))"
+                pst = [(bb, t) for bb, t in step_sites(b, step_rx) if len(t["args"]) > 1 and re.fullmatch(popped, expr(b, t["args"][1]))]
+                okp = okp and len(pst) == 1
             ctx.instance("FOLD", {"fn": path, "hyp": "re-scheduled bytes are drained (through the same step) before reading input", "ok": okp})
             if not okp:
                 ctx.violation("FOLD", path, "pending-first", "input is read before the re-scheduled bytes are exhausted (or they bypass the step function)", sites=[b.loc])
@@ -189,51 +503,117 @@ def run(ctx):
 
     # ---------------- LIFO ------------------------------------------------------------------------------------
     ctx.rule("LIFO", "rescheduled: consumed by pop(); filled by extend(buffer.drain(size..).rev()) or push(byte)+buffer.pop()", floor=3)
-    users = {}
-    for b in prog.bodies:
-        if not (b.path.startswith("decoder::MatcherDecoder") or b.path.startswith("<decoder::MatcherDecoder")):
-            continue
+    # bodies of the decoder with their extracted helpers expanded; a helper that was expanded into its caller is not looked at on its own
+    scope_bodies = [b for b in prog.bodies if b.path.startswith("decoder::MatcherDecoder") or b.path.startswith("<decoder::MatcherDecoder")]
+    views, absorbed = {}, set()
+    for b in scope_bodies:
+        ib = inlined_keep(prog, b.path, STEP_FNS) or b
+        views[b.path] = ib
+        for blk in ib.blocks:
+            if blk["term"].get("inl_call"):
+                absorbed.add(blk["term"]["inl_call"])
+    for pth in list(absorbed):
+        hb = prog.body(pth)
+        if hb is not None and pth not in views:
+            views[pth] = hb
+    live = [views[b.path] for b in scope_bodies if b.path not in absorbed]
+
+    def upvars(cb, depth=0):
+        """captured places of a closure, as terms over the arguments of the function that (transitively) creates it"""
         up = {}
-        if b.kind == "Closure":
-            parent = prog.body(b.j.get("closure_parent") or "") or prog.body(b.closure_root)
-            if parent is not None:
-                for i, si, s in parent.assigns():
-                    rv = s["rv"]
-                    if rv["k"] == "agg" and rv["ak"] == "closure" and rv["def"] == b.path:
-                        for k, f in enumerate(rv["fields"]):
-                            up["arg1.%d" % k] = expr(parent, f)
+        for v in live + [views[p_] for p_ in views if p_ in absorbed]:
+            for i, si, s in v.assigns():
+                rv = s["rv"]
+                if rv["k"] == "agg" and rv["ak"] == "closure" and rv["def"] == cb.path:
+                    pu = upvars(v, depth + 1) if v.kind == "Closure" and depth < 4 else {}
+                    for k, f in enumerate(rv["fields"]):
+                        e = expr(v, f)
+                        for a_, b_ in pu.items():
+                            e = re.sub(r"\b%s\b" % re.escape(a_), b_.replace("\\", "\\\\"), e)
+                        up["arg1.%d" % k] = e
+                    return up
+        return up
+
+    def subst(e, up):
+        for k, v in sorted(up.items(), key=lambda kv: -len(kv[0])):
+            e = re.sub(r"\b%s\b(?!\d)" % re.escape(k), v.replace("\\", "\\\\"), e)
+        return e
+    users = {}
+    for b in live:
+        up = upvars(b) if b.kind == "Closure" else {}
         for bb, t in b.calls():
             if not t["args"]:
                 continue
-            e0 = expr(b, t["args"][0])
-            e0 = up.get(e0, e0)
+            e0 = subst(expr(b, t["args"][0]), up)
             if e0 == "arg1.rescheduled":
                 users.setdefault(callee_name(t).split("::")[-1], []).append((b, bb, t, up))
     ctx.instance("LIFO", {"operations_on_rescheduled": {k: len(v) for k, v in users.items()}})
-    allowed_ops = {"pop", "push", "extend", "default", "len", "is_empty"}
+    # besides the three LIFO operations: construction, capacity management and read-only access do not change the queued bytes or their order
+    allowed_ops = {"pop", "push", "extend", "default", "new", "with_capacity", "len", "is_empty", "reserve", "reserve_exact", "try_reserve", "shrink_to_fit", "capacity",
+                   "iter", "as_slice", "last", "first", "get", "contains", "deref", "as_ref", "clone", "fmt", "spilled"}
     for op, sites in users.items():
         if op not in allowed_ops:
             for b, bb, t, up in sites:
                 ctx.violation("LIFO", b.path, op, "rescheduled is manipulated with %s (only pop / push / extend(..rev()) keep it a LIFO of bytes to re-read)" % op, sites=["%s:%d" % (b.file, t["line"])])
     if "pop" not in users:
         ctx.anchor("LIFO", "rescheduled.pop")
+
+    def strip_elementwise(term):
+        """remove adaptors that keep every element and its position (copied / cloned / into_iter / by_ref)"""
+        while True:
+            sp = split_term(term)
+            if sp is None or sp[2] or len(sp[1]) != 1 or sp[0].split("::")[-1] not in ("copied", "cloned", "into_iter", "by_ref"):
+                return term
+            term = sp[1][0]
+
+    def reversed_tail(term):
+        """`term` yields the bytes buffer[size..] last to first: (kind, start) with kind 'drain' (bytes leave the buffer) or 'view' (they stay); else None"""
+        sp = split_term(strip_elementwise(term))
+        if sp is None or sp[2] or sp[0] != "Iterator::rev" or len(sp[1]) != 1:
+            return None
+        inner = strip_elementwise(sp[1][0])
+        m = re.fullmatch(r"(?:SmallVec|Vec)::drain\(arg1\.buffer, RangeFrom\{start: (.*)\}\)", inner)
+        if m:
+            return "drain", m.group(1)
+        m = re.fullmatch(r"slice::iter\(Index::index\(arg1\.buffer, RangeFrom\{start: (.*)\}\)\)", inner)
+        if m:
+            return "view", m.group(1)
+        return None
+
+    def buffer_calls(b, up, names):
+        return [pb for pb, pt in b.calls() if pt["args"] and re.search(r"(SmallVec|Vec)::<[^>]*>::(%s)$" % names, callee_name(pt) or "") and subst(expr(b, pt["args"][0]), up) == "arg1.buffer"]
     for b, bb, t, up in users.get("extend", []):
-        e1 = expr(b, t["args"][1])
-        for k, v in up.items():
-            e1 = e1.replace(k, v)
-        ok = re.match(r"^Iterator::rev\(SmallVec::drain\(arg1\.buffer, RangeFrom\{start: (.*)\}\)\)$", e1) is not None
+        e1 = subst(expr(b, t["args"][1]), up)
+        rt = reversed_tail(e1)
+        ok = rt is not None
+        if ok and rt[0] == "view":
+            # the bytes were only read: they must leave the buffer afterwards
+            cl_ = buffer_calls(b, up, "clear|truncate")
+            ok = bool(cl_) and b.cfg().must_pass(cl_, start=bb)[0]
         ctx.instance("LIFO", {"fn": b.path, "extend_source": e1[:140], "reversed_drain_of_buffer_tail": ok})
         if not ok:
             ctx.violation("LIFO", b.path, "extend-not-reversed", "bytes after the candidate are re-scheduled without `.rev()` over buffer.drain(size..): pop() would replay them in the wrong order", sites=["%s:%d" % (b.file, t["line"])])
-    if "extend" not in users:
-        ctx.anchor("LIFO", "rescheduled.extend")
+    moved_one = r"(?:SmallVec|Vec)::pop\(arg1\.buffer\)@Some\.0|Option::(?:unwrap|expect|unwrap_unchecked)\((?:SmallVec|Vec)::pop\(arg1\.buffer\)(?:, .*)?\)"
+    n_bulk = len(users.get("extend", []))
     for b, bb, t, up in users.get("push", []):
         cfg = b.cfg()
-        pops = [pb for pb, pt in b.calls() if call_matches(pt, r"SmallVec::<A>::pop$") and up.get(expr(b, pt["args"][0]), expr(b, pt["args"][0])) == "arg1.buffer"]
-        ok = bool(pops) and cfg.must_pass(pops, start=bb)[0]
-        ctx.instance("LIFO", {"fn": b.path, "push_current_byte_then_buffer_pop": ok})
+        e1 = subst(expr(b, t["args"][1]), up) if len(t["args"]) > 1 else ""
+        m = re.fullmatch(r"(?:Iter|Iterator|DoubleEndedIterator)::next\((.*)\)@Some\.0", e1)
+        if re.fullmatch(moved_one, e1):
+            # the last byte of the buffer is moved over: repeated, this re-schedules the tail last to first
+            ok = True
+            n_bulk += 1
+        elif m and (reversed_tail(m.group(1)) or (None,))[0] == "drain":
+            ok = True
+            n_bulk += 1
+        else:
+            pops = buffer_calls(b, up, "pop")
+            ok = bool(pops) and cfg.must_pass(pops, start=bb)[0]
+        ctx.instance("LIFO", {"fn": b.path, "push_current_byte_then_buffer_pop": ok, "pushed": e1[:100]})
         if not ok:
             ctx.violation("LIFO", b.path, "push-without-pop", "the current byte is re-scheduled but stays in the buffer (it would be reported twice)", sites=["%s:%d" % (b.file, t["line"])])
+    if n_bulk == 0:
+        ctx.anchor("LIFO", "rescheduled.extend")
 
     # ---------------- TAG ORDER ---------------------------------------------------------------------------------
     ctx.rule("TAGORDER", "MatcherTag: Item < Matcher by derive(Ord); decode_byte takes tags.iter().next(); overlap set equals the documented one", floor=3)
@@ -246,49 +626,75 @@ def run(ctx):
     ctx.instance("TAGORDER", {"variants": names, "derive_ord": has_ord and derived, "ok": ok})
     if not ok:
         ctx.violation("TAGORDER", "decoder::MatcherTag", "order", "MatcherTag must derive Ord with Item declared before Matcher (table keys win over parsed matchers, lower matcher index wins)", sites=[])
-    db = prog.body("decoder::MatcherDecoder::<T>::decode_byte")
+    DB = "decoder::MatcherDecoder::<T>::decode_byte"
+    db = inlined_keep(prog, DB, r"::take_candidate$")
     if db is None:
         ctx.anchor("TAGORDER", "decode_byte")
     else:
-        ex = [expr(db, t["args"][0]) for bb, t in db.calls() if call_matches(t, r"Option::<T>::expect$")]
-        ok = any(re.match(r"^Iter::next\(BTreeSet::iter\(.*\.tags\)\)$|^Iterator::next\(BTreeSet::iter\(.*\.tags\)\)$", e) for e in ex)
-        ctx.instance("TAGORDER", {"selected_tag": ex[:2], "is_minimum_of_btreeset": ok})
+        # the tag that selects how the event is built: whatever is matched on as a MatcherTag (found by type, wherever the match was moved to)
+        sel = set()
+        for i, si, s in db.assigns():
+            rv = s["rv"]
+            if rv["k"] == "discr" and re.search(r"\bdecoder::MatcherTag<", db.local_ty(rv["place"]["l"])):
+                sel.add(place_expr(db, rv["place"]))
+        if not sel:
+            sel = {expr(db, t["args"][0]) for bb, t in db.calls() if call_matches(t, r"Option::<T>::(expect|unwrap)$") and ".tags" in expr(db, t["args"][0])}
+        mins = [minimum_of_set(unwrapped(e)) for e in sorted(sel)]
+        ok = bool(mins) and all(m_ is not None and re.search(r"\.tags$", m_) for m_ in mins)
+        ctx.instance("TAGORDER", {"selected_tag": sorted(sel)[:2], "is_minimum_of_btreeset": ok})
         if not ok:
-            ctx.violation("TAGORDER", db.path, "min-tag", "the tag used to build the event is not the first (minimum) element of the state's tag set: %s" % ex[:2], sites=[db.loc])
+            ctx.violation("TAGORDER", DB, "min-tag", "the tag used to build the event is not the first (minimum) element of the state's tag set: %s" % sorted(sel)[:2], sites=[db.loc])
     # ---------------- LONGEST MATCH -----------------------------------------------------------------------------
     ctx.rule("LONGEST", "decode_byte: every accepting state overwrites the candidate with (event, buffer.len()) — decodable or not — before returning; "
                         "a dead transition takes the candidate; take_candidate pushes back buffer[size..]", floor=3)
     if db is not None:
         dcfg = db.cfg()
-        acc = [(bb, blk["term"]) for bb, blk in enumerate(db.blocks) if blk["term"]["k"] == "switch" and re.search(r"\.is_accepting$", expr(db, blk["term"]["d"]))]
-        reps = [(bb, t) for bb, t in db.calls() if call_matches(t, r"Option::<T>::(replace|insert)$") and arg_place(db, t, 0) == "(*_1).item_candidate"]
+        acc = []
+        for bb, blk in enumerate(db.blocks):
+            if blk["term"]["k"] != "switch" or blk["cleanup"]:
+                continue
+            m = re.fullmatch(r"(Not\()?(.*)\.is_accepting\)?", expr(db, blk["term"]["d"]))
+            if m:
+                acc.append((bb, blk["term"], bool(m.group(1))))
+        # the candidate is stored with Option::replace / insert, or assigned `Some((event, len))`
+        reps = [(bb, expr(db, t["args"][1]), t["line"]) for bb, t in db.calls() if call_matches(t, r"Option::<T>::(replace|insert)$") and arg_place(db, t, 0) == "(*_1).item_candidate"]
+        for i, si, s in db.assigns():
+            rv = s["rv"]
+            if resolve_place(db, s["place"]) == "(*_1).item_candidate" and s["place"]["p"]:
+                e = expr(db, rv["fields"][0]) if rv["k"] == "agg" and rv.get("variant") == "Some" and rv["fields"] else expr(db, rv["a"]) if rv["k"] == "use" else ""
+                m = re.fullmatch(r"Option::Some\((.*)\)", e)
+                if m:
+                    e = m.group(1)
+                if e and e not in ("Option::None()", "Option::None"):
+                    reps.append((i, e, s["line"]))
         if len(acc) != 1 or not reps:
-            ctx.violation("LONGEST", db.path, "candidate-not-recorded", "decode_byte does not record an accepting state as the new candidate", sites=[db.loc])
+            ctx.violation("LONGEST", DB, "candidate-not-recorded", "decode_byte does not record an accepting state as the new candidate", sites=[db.loc])
         else:
-            abb, at = acc[0]
-            yes = at["otherwise"] if at["vals"] == ["0"] else (at["targets"][at["vals"].index("1")] if "1" in at["vals"] else None)
-            ok, wit = dcfg.must_pass([bb for bb, t in reps], start=yes, exits=dcfg.returns) if yes is not None else (False, None)
-            ctx.instance("LONGEST", {"accepting_test_block": abb, "replace_blocks": [bb for bb, t in reps], "unconditional_on_accept": ok})
+            abb, at, neg = acc[0]
+            one = at["targets"][at["vals"].index("1")] if "1" in at["vals"] else (at["otherwise"] if at["vals"] == ["0"] else None)
+            zero = at["targets"][at["vals"].index("0")] if "0" in at["vals"] else (at["otherwise"] if at["vals"] == ["1"] else None)
+            yes = zero if neg else one
+            ok, wit = dcfg.must_pass([bb for bb, e, ln in reps], start=yes, exits=dcfg.returns) if yes is not None else (False, None)
+            ctx.instance("LONGEST", {"accepting_test_block": abb, "replace_blocks": [bb for bb, e, ln in reps], "unconditional_on_accept": ok})
             if not ok:
-                ctx.violation("LONGEST", db.path, "conditional-candidate", "an accepting state can be passed without replacing the candidate (path %s): a shorter, stale "
-                              "candidate would be emitted instead of the longest match" % wit, sites=["%s:%d" % (db.file, reps[0][1]["line"])])
-            for bb, t in reps:
-                e = expr(db, t["args"][1])
+                ctx.violation("LONGEST", DB, "conditional-candidate", "an accepting state can be passed without replacing the candidate (path %s): a shorter, stale "
+                              "candidate would be emitted instead of the longest match" % wit, sites=["%s:%d" % (db.file, reps[0][2])])
+            for bb, e, ln in reps:
                 okv = bool(re.search(r", (SmallVec|Vec)::len\(arg1\.buffer\)\)$", e))
                 ctx.instance("LONGEST", {"candidate_value": e[:160], "length_is_buffer_len": okv})
                 if not okv:
-                    ctx.violation("LONGEST", db.path, "candidate-length", "the candidate does not record the current buffer length: %s" % e[:160], sites=["%s:%d" % (db.file, t["line"])])
+                    ctx.violation("LONGEST", DB, "candidate-length", "the candidate does not record the current buffer length: %s" % e[:160], sites=["%s:%d" % (db.file, ln)])
         # dead transition: take_candidate is consulted before giving up
         dead = [(bb, t) for bb, t in db.calls() if call_matches(t, r"MatcherDecoder::<T>::take_candidate$")]
         tr = [(bb, blk["term"]) for bb, blk in enumerate(db.blocks) if blk["term"]["k"] == "switch" and re.match(r"^discr\(DFA::transition\(", expr(db, blk["term"]["d"]))]
         okd = False
         if len(tr) == 1:
             tb, tt = tr[0]
-            none_t = tt["targets"][tt["vals"].index("0")] if "0" in tt["vals"] else None
+            none_t = tt["targets"][tt["vals"].index("0")] if "0" in tt["vals"] else (tt["otherwise"] if tt["vals"] == ["1"] else None)
             okd = none_t is not None and any(dcfg.must_pass([bb], start=none_t, exits=dcfg.returns)[0] for bb, t in dead)
         ctx.instance("LONGEST", {"dead_transition_takes_candidate": okd})
         if not okd:
-            ctx.violation("LONGEST", db.path, "dead-transition", "when no transition exists the pending candidate is not taken on every path", sites=[db.loc])
+            ctx.violation("LONGEST", DB, "dead-transition", "when no transition exists the pending candidate is not taken on every path", sites=[db.loc])
     try:
         gs = grammar.extract(src)
         evn = grammar.event_matcher_names(src)
